@@ -17,7 +17,7 @@ import uuid
 
 from .. import tlc
 from ..alpha import alpha, exc_names
-from ..core import Check, MachineryError
+from ..core import Check, MachineryError, Timeout, watchdog
 
 D = decimal.Decimal
 TRUE_W = {"1", "true", "yes", "on", "t", "y"}
@@ -104,8 +104,15 @@ def cell(x, tname, T, tgroup, tscalar):
     xr = alpha(x) if x is not object else alpha(object())
     for ne, ndl in ((False, False), (True, False), (False, True), (True, True)):
         try:
-            v = type_transform(x, T, options=Options(no_explicit_cast=ne, no_data_loss=ndl))
+            with watchdog(3.0):
+                if tname == "Schema":
+                    # the flags are the data class's own options (a nested data class always parses under its class options)
+                    v = T.__from__(x, options=Options(no_explicit_cast=ne, no_data_loss=ndl))
+                else:
+                    v = type_transform(x, T, options=Options(no_explicit_cast=ne, no_data_loss=ndl))
             outs.append({"ok": True, "v": alpha(v), "exc": []})
+        except Timeout:
+            outs.append({"ok": False, "v": xr, "exc": ["TIMEOUT"]})
         except Exception as e:
             outs.append({"ok": False, "v": xr, "exc": exc_names(e)[:3]})
     fx = facts(x)
